@@ -537,6 +537,7 @@ func genScenario(r *kit.Rng, tier string, idx int) *Scenario {
 	}
 	if !cyclic {
 		g.addRepeats()
+		g.addScribbles()
 	}
 	g.genRequests(tier, cyclic)
 	g.sc.Queries = append(g.sc.Queries, g.extra...)
@@ -869,6 +870,34 @@ func (g *gen) genExpansionProbes() {
 				}
 			}
 			g.sc.Queries = append(g.sc.Queries, QueryD{Ws: w.Name, Op: op, Res: t.Name, Roles: roles})
+		}
+	}
+}
+
+// addScribbles: for a few field-level rules on one named type the caller overwrites, after the
+// declaration, the slice it passed with other fields of that type (a legal thing to do with one's own
+// slice): the declared rule must stay what it was
+func (g *gen) addScribbles() {
+	r := g.r
+	if !r.Chance(1, 3) {
+		return
+	}
+	for wi := range g.sc.Wss {
+		for ri := range g.sc.Wss[wi].Rules {
+			rl := &g.sc.Wss[wi].Rules[ri]
+			if len(rl.Fields) == 0 || rl.Flt.K != "qnames" || len(rl.Flt.Names) != 1 || !r.Chance(1, 2) {
+				continue
+			}
+			for _, t := range g.types {
+				if t.Name == rl.Flt.Names[0] && len(t.Fields) >= len(rl.Fields) {
+					rl.Scribble = shuffled(r, t.Fields)[:len(rl.Fields)]
+					for _, op := range rl.Ops {
+						for _, f := range append(append([]string{}, rl.Fields...), rl.Scribble...) {
+							g.extra = append(g.extra, QueryD{Ws: g.sc.Wss[wi].Name, Op: op, Res: t.Name, Flds: []string{f}, Roles: []string{rl.Role}})
+						}
+					}
+				}
+			}
 		}
 	}
 }
